@@ -707,8 +707,8 @@ class Interp:
                 native = {"bool": bool, "int": int, "str": str, "list": list, "tuple": tuple, "dict": dict, "float": float, "set": set, "type": type, "super": super, "bytes": bytes, "bytearray": bytearray, "frozenset": frozenset, "complex": complex}
                 if not isinstance(v0, (Obj, Opaque, Sym)) and all(norm(c) in native for c in classes0):
                     return any(isinstance(v0, native[norm(c)]) for c in classes0)
-                if isinstance(v0, Sym) and all(norm(c) in native for c in classes0):
-                    return False
+                if isinstance(v0, (Sym, Obj)) and all(norm(c) in native for c in classes0):
+                    return False  # a model object is never an instance of a builtin container / scalar class
             if nm == "isinstance" and len(e.args) == 2 and not isinstance(e.args[1], ast.Name):
                 v0 = self.ev(e.args[0])
                 if not isinstance(v0, (Obj, Opaque, Sym)):
@@ -805,6 +805,13 @@ class Interp:
                     if x is args[0]:
                         return i
                 raise Unsupported(e, "(list.index miss)")
+            if isinstance(recv, dict) and meth in ("setdefault", "pop") and 1 <= len(args) <= 2:
+                try:
+                    return getattr(recv, meth)(*args)
+                except KeyError:
+                    raise PyRaise("KeyError", None)
+                except TypeError:
+                    raise PyRaise("TypeError", None)
             if isinstance(recv, dict) and meth in ("items", "values", "keys", "get"):
                 r = getattr(recv, meth)(*args)
                 return list(r) if meth != "get" else r
